@@ -177,6 +177,16 @@ def run_ccn(c):
     pair("v", "cross_local_clustering", net.cross_local_clustering)
     pair("v", "cross_closeness", net.cross_closeness)
     pair("v", "internal_closeness", net.internal_closeness)
+    # the link lengths are given in two steps: first OTHER lengths (all 5), for which the layer-wise wrappers
+    # are asked once, then the lengths of the case - every answer below is about the lengths in force
+    net.set_link_attribute("c", 5.0 * np.asarray(net.adjacency, dtype=float))
+    for q in (net.cross_path_lengths, net.cross_average_path_length, net.internal_average_path_length,
+              net.cross_closeness, net.internal_closeness, net.path_lengths_1, net.path_lengths_2):
+        try:
+            q("c")
+        except Exception:
+            pass
+    net.del_link_attribute("c")
     _set_lengths(net)
     put(obs, "m", "cross_path_lengths(c)", lambda: net.cross_path_lengths("c"))
     for o in (obs, swap):
